@@ -209,11 +209,11 @@ PROPERTIES = {
         functions=['field:Field.__init__', 'field:Field.init', 'field:Int.init', 'field:Data.init', 'field:Data.__init__',
                    'structural_fields:Sequence.init', 'structural_fields:Optional.init', 'packet:Packet.__init__',
                    'packet:Prototype.__init__', 'packet:Prototype._clone_from_pickle', 'packet:Prototype._clone_from_live_obj',
-                   'field:Ref.init'],
+                   'field:Ref.init', 'field:Bits.init', 'structural_fields:Sequence.__init__', 'structural_fields:Optional.__init__'],
         trusted_base=_COMMON_TRUST + ['copy.deepcopy returns a fresh object graph for non-primitive values',
                                       'pickle.loads(pickle.dumps(x)) is a fresh object graph sharing nothing mutable with x'],
         assumptions=['embed=True is excluded (documented as experimental)',
-                     'Bits.init / Sequence.__init__ / Optional.__init__ are NOT under contract in this round (Ref.init, Prototype.__init__ and both clone bodies are)'],
+                     'Ref.__init__ (choice of the default of a reference) is NOT under contract'],
     ),
     'C08': dict(
         level='proof',
@@ -381,7 +381,7 @@ MANIFEST_TEXT = {
              '(Int/Data/Bits-like: the default object; containers and packets: a deep copy, i.e. a fresh object never shared); Data.__init__ computes NUL bytes of the declared '
              'size for fixed byte strings without default and keeps the given default otherwise; Sequence/Optional init their own slot and the element scratch slot only; '
              'a reference defaults to a clone of its prototype, which is a snapshot taken at declaration time and cloned deeply (nothing mutable shared with the declaration or other packets).',
-        note='Bits.init and Sequence/Optional.__init__ are not yet under contract (listed in the evidence); copy.deepcopy and the pickle round trip are assumed contracts; embed=True excluded.'),
+        note='Ref.__init__ is not under contract (listed in the evidence); copy.deepcopy and the pickle round trip are assumed contracts; embed=True excluded.'),
     'C08': dict(
         text='Proof for any element field (abstract field contract), any input and list length: the real bodies of Sequence.unpack/pack, Optional.unpack/pack and '
              'Ref (packet prototype) satisfy the control clauses of the statement - max(count,0) elements; until: >= 1 element and the loop stops exactly when the '
